@@ -1,3 +1,4 @@
+import RzmqModel.Proofs.FrameWise
 import RzmqModel.Model.Multipart
 import RzmqModel.Model.Engine
 import RzmqModel.Proofs.Multipart
@@ -119,5 +120,28 @@ theorem mp_ignores_stash_counterexample :
       [.register 1 8, .put 1 [a1, a2], .put 1 [b1], .recv, .recvMultipart]
     s.returned = [a1, b1] ∧ s.stashed = [a2] := by
   decide
+
+-- PUSH fed frame by frame --------------------------------------------------------------------------------------------------------------------
+
+/-- the PUSH send path as the proofs need it (re-extracted from the sources on every run) -/
+theorem push_source_shape : currentFwCfg = { holdsParts := true, limit := 253 } := by decide
+
+/-- however a PUSH socket is fed - single frames with and without MORE, whole send_multipart calls in between, messages that
+grow beyond the frame limit - every unit it hands to a peer is a whole message (MORE on every frame but the last), and a
+message is handed to ONE peer: no peer ever sees part of a message, with any number of peers -/
+theorem push_routes_only_whole_messages (peers : Nat) (evs : List FwEv) :
+    ∀ u ∈ (Fw.run currentFwCfg { peers := peers } evs).got, wholeUnit u.2 = true := by
+  rw [push_source_shape]
+  exact (Fw.run_inv 253 _ evs ⟨by simp, by simp⟩).2
+
+/-- non-vacuity: two three-frame messages sent frame by frame to two peers arrive as two whole messages, one each -/
+example : (Fw.run currentFwCfg { peers := 2 }
+    [.send ⟨true, 0, 0⟩, .send ⟨true, 0, 1⟩, .send ⟨false, 0, 2⟩, .send ⟨true, 1, 0⟩, .send ⟨true, 1, 1⟩, .send ⟨false, 1, 2⟩]).got
+    = [(0, [⟨true, 0, 0⟩, ⟨true, 0, 1⟩, ⟨false, 0, 2⟩]), (1, [⟨true, 1, 0⟩, ⟨true, 1, 1⟩, ⟨false, 1, 2⟩])] := by decide
+
+/-- the earlier shape (every frame load-balanced on its own): with two peers the frames of one message go to different peers -/
+theorem framewise_load_balancing_tears_messages :
+    ((Fw.run { holdsParts := false, limit := 253 } { peers := 2 }
+      [.send ⟨true, 0, 0⟩, .send ⟨true, 0, 1⟩, .send ⟨false, 0, 2⟩]).got.map (·.1)) = [0, 1, 0] := by decide
 
 end Rzmq.C02
